@@ -1366,7 +1366,15 @@ func (a *Agent) addCandidate(ctx context.Context, cand Candidate, candidateConn 
 		return err
 	}
 
-	return a.loop.Run(ctx, func(context.Context) {
+	var canceledErr error
+	if err := a.loop.Run(ctx, func(context.Context) {
+		// The gathering cycle may have been canceled (Restart) after the check above,
+		// while this task was waiting for the loop: a candidate of a canceled cycle
+		// must not leak into the next generation.
+		if canceledErr = ctx.Err(); canceledErr != nil {
+			return
+		}
+
 		set := a.localCandidates[cand.NetworkType()]
 		for _, candidate := range set {
 			if candidate.Equal(cand) {
@@ -1399,7 +1407,11 @@ func (a *Agent) addCandidate(ctx context.Context, cand Candidate, candidateConn 
 		if !cand.filterForLocationTracking() {
 			a.candidateNotifier.EnqueueCandidate(cand)
 		}
-	})
+	}); err != nil {
+		return err
+	}
+
+	return canceledErr
 }
 
 func (a *Agent) setCandidateExtensions(cand Candidate) {
